@@ -778,6 +778,15 @@ def good(case):
 # ----------------------------------------------------------------------------------------------
 
 TOL = 1e-9
+_same_num = same_num
+
+
+def same_num(a, b, tol=0.0):
+    """fv.futil.same_num, except that beyond 2**50 float64 is no longer exact on the integers that
+    deep product-reductions produce: there (and only there) a relative 1e-12 is allowed."""
+    if not tol and not isinstance(a, float) and not isinstance(b, float) and max(abs(a), abs(b)) > 2 ** 50:
+        return abs(a - b) <= 1e-12 * max(abs(a), abs(b))
+    return _same_num(a, b, tol)
 
 
 def jsonable(case):
